@@ -3,7 +3,7 @@ CONSTANTS
   Mode = "sample"
   MaxLocal = 3
   MaxRemote = 4
-  NSample = 6000
+  NSample = 10000
   Emit = TRUE
 INIT Init
 NEXT Next
